@@ -23,6 +23,7 @@ from typing import Any, Callable
 
 import numpy as np
 from numpy.random.mtrand import RandomState as _RealRandomState
+from time import monotonic as _real_monotonic          # bound at import: the harness's own clock, never the simulated one
 
 ACTIVE: "Sim | None" = None          # the simulation currently installed in this interpreter
 _TLS = threading.local()             # real thread -> SimThread
@@ -124,6 +125,11 @@ class Sim:
         self.step_cap = step_cap
         self.nevents = 0
         self.step_limit_hit = False
+        # wall budget: the event budget does not bound the *time* of a run whose work per event grows (an optimizer whose
+        # internal lists grow every cycle); a run cut off here is "budget exhausted" - no verdict - never a violation
+        self.wall_cap_s = float(sched.get("wall_cap_s", 100.0))
+        self.wall_limit_hit = False
+        self._t_start = _real_monotonic()
         self.deadlock = False
         self.aborting = False
         self._digest = hashlib.blake2b(digest_size=16)
@@ -225,6 +231,10 @@ class Sim:
         if self.nevents > self.step_cap and not self.aborting:
             self.step_limit_hit = True
             raise SimStepLimit(f"step cap {self.step_cap} exceeded")
+        if (self.nevents & 2047) == 0 and not self.aborting and _real_monotonic() - self._t_start > self.wall_cap_s:
+            self.step_limit_hit = True
+            self.wall_limit_hit = True
+            raise SimStepLimit(f"wall budget {self.wall_cap_s:.0f}s exceeded")
 
     def digest(self) -> str:
         return self._digest.hexdigest()
